@@ -7,7 +7,6 @@ Import ListNotations.
 Open Scope string_scope.
 Open Scope list_scope.
 
-Definition cells3 (r : rec3) : list addr := [r_new r; r_set r].
 Definition set_items (l : list addr) : list (value * value) := map (fun x => (Ref x, At "")) l.
 
 Lemma keys_set_items : forall l, keys_of (set_items l) = map Ref l.
